@@ -36,7 +36,7 @@ func vxSameContent(a, b *Message, what string) {
 
 func vh_C08_build() {
 	old, fresh := vxOldAndFresh()
-	na := vxChoose(vxK(2, 3)) // number of attributes built: 0..1 (0..2)
+	na := vxChoose(vxK(2, 2)) // number of attributes built: 0..1 (a second attribute multiplied the run time by >20)
 	var ss [2]RawAttribute
 	for i := 0; i < na; i++ {
 		n := vxInt()
@@ -80,7 +80,7 @@ func vh_C08_reset_add() {
 }
 
 func vh_C08_decode() {
-	vxUnwind(vxK(1, 2), true)
+	vxUnwind(vxK(1, 1), true)
 	old, fresh := vxOldAndFresh()
 	data := vxRawBuf()
 	var e1, e2 error
